@@ -58,8 +58,8 @@ def wf_model(m):
             seen_r.add(id(r))
             if not (isinstance(r.card_min, int) and isinstance(r.card_max, int)):
                 return False
-            if not (0 <= r.card_min <= r.card_max <= len(r.children)):
-                return False
+            if not (0 <= r.card_min and (r.card_max == -1 or r.card_min <= r.card_max <= len(r.children))):
+                return False        # card_max == -1 is UVL's [a..*]
             for c in r.children:
                 if c.parent is not f:
                     return False
